@@ -227,3 +227,26 @@ def assume_no_int64_uint64_mix(D, xs):
     big = Or(*[And(M(x) >= 2**63, M(x) < 2**64) for x in xs])
     small = Or(*[And(M(x) >= -2**63, M(x) < 2**63) for x in xs])
     D.assume(Not(And(big, small)))
+
+
+def shares_buffer(a, b):
+    """do two value arrays share their buffer? (proxy: same store list; real: numpy.shares_memory)"""
+    if isinstance(a, SBase) and isinstance(b, SBase):
+        return a.store is b.store
+    if isinstance(a, _np.ndarray) and isinstance(b, _np.ndarray):
+        return bool(_np.shares_memory(a, b))
+    return a is b
+
+
+def same_elems(xs, ys):
+    """element lists identical (proxy terms: same object; concrete numbers: equal)"""
+    if len(xs) != len(ys):
+        return False
+    for a, b in zip(xs, ys):
+        if a is b:
+            continue
+        if isinstance(a, (SNum, SBool)) or isinstance(b, (SNum, SBool)):
+            return False
+        if a != b:
+            return False
+    return True
